@@ -4,6 +4,7 @@ import (
 	"go/constant"
 	"go/token"
 	"go/types"
+	"sort"
 	"strings"
 
 	"kmcheck/internal/km"
@@ -66,8 +67,49 @@ func checkC12(c *km.Ctx) {
 	}
 	// the PKCE verifier: the module function the token endpoint hands the code to and that opens the code's
 	// protected data (whatever its name and result type)
-	var vf *ssa.Function
+	// the client authentication may have been moved, whole, into a helper of the token endpoint that is new to the
+	// tree: the flag and the verifier call are then looked for there, the helper's parameters standing for the
+	// arguments of its (only) call in the token endpoint
+	authFrames := []*ssa.Function{th}
+	helperCall := map[*ssa.Function]ssa.CallInstruction{}
 	for _, ci := range km.CallsIn(th) {
+		g := km.StaticCallee(ci.Common())
+		if g == nil || g.Blocks == nil || !c.InModule(g) || c.P.IsRecorded(g) {
+			continue
+		}
+		if _, dup := helperCall[g]; dup {
+			helperCall[g] = nil
+			continue
+		}
+		helperCall[g] = ci
+	}
+	for g, ci := range helperCall {
+		if ci != nil {
+			authFrames = append(authFrames, g)
+		}
+	}
+	sort.Slice(authFrames[1:], func(i, j int) bool { return authFrames[1+i].String() < authFrames[1+j].String() })
+	// toTh: a value of an authentication frame as the token endpoint sees it
+	toTh := func(v ssa.Value) ssa.Value {
+		v = km.Unwrap(v)
+		if q, isP := v.(*ssa.Parameter); isP && q.Parent() != th {
+			if ci := helperCall[q.Parent()]; ci != nil {
+				a := ci.Common().Args
+				for i, x := range q.Parent().Params {
+					if x == q && i < len(a) {
+						return km.Unwrap(a[i])
+					}
+				}
+			}
+		}
+		return v
+	}
+	var vf *ssa.Function
+	var vfCalls []ssa.CallInstruction
+	for _, af := range authFrames {
+		vfCalls = append(vfCalls, km.CallsIn(af)...)
+	}
+	for _, ci := range vfCalls {
 		g := km.StaticCallee(ci.Common())
 		if g == nil || g.Blocks == nil || !c.InModule(g) {
 			continue
@@ -93,9 +135,13 @@ func checkC12(c *km.Ctx) {
 		return
 	}
 	verifierParam, codeParam := checkPKCEVerifier(c, s, vf)
+	// the position of a verifier parameter in CallArgs (the recorded order when the verifier is a recorded function)
 	paramIdx := func(q *ssa.Parameter) int {
-		for i, x := range vf.Params {
-			if x == q {
+		if q == nil {
+			return -1
+		}
+		for i := 0; i < len(vf.Params)+4; i++ {
+			if km.ParamAt(vf, i) == q {
 				return i
 			}
 		}
@@ -151,24 +197,26 @@ func checkC12(c *km.Ctx) {
 	// ---- R-C12-2: flag
 	var flag *ssa.Phi
 	var flagIf *ssa.If
-	km.Instrs(th, func(in ssa.Instruction) {
-		iff, ok := in.(*ssa.If)
-		if !ok {
-			return
-		}
-		v := iff.Cond
-		if u, ok := v.(*ssa.UnOp); ok && u.Op == token.NOT {
-			v = u.X
-		}
-		p, ok := v.(*ssa.Phi)
-		if !ok {
-			return
-		}
-		// the flag that merges the two authentication methods: one of its (transitive) edges is ValidClientSecret
-		if phiHasCallEdge(p, "ValidClientSecret", map[*ssa.Phi]bool{}) {
-			flag, flagIf = p, iff
-		}
-	})
+	for _, af := range authFrames {
+		km.Instrs(af, func(in ssa.Instruction) {
+			iff, ok := in.(*ssa.If)
+			if !ok {
+				return
+			}
+			v := iff.Cond
+			if u, ok := v.(*ssa.UnOp); ok && u.Op == token.NOT {
+				v = u.X
+			}
+			p, ok := v.(*ssa.Phi)
+			if !ok {
+				return
+			}
+			// the flag that merges the two authentication methods: one of its (transitive) edges is ValidClientSecret
+			if phiHasCallEdge(p, "ValidClientSecret", map[*ssa.Phi]bool{}) {
+				flag, flagIf = p, iff
+			}
+		})
+	}
 	if flag == nil {
 		r.AnchorLost("R-C12-2", "client-authentication flag in idpOpenIDCTokenHandler")
 		return
@@ -185,8 +233,8 @@ func checkC12(c *km.Ctx) {
 		}
 		a := km.CallArgs(x.Common())
 		vi, ci := paramIdx(verifierParam), paramIdx(codeParam)
-		verifierOK := vi >= 0 && vi < len(a) && leafAll(a[vi], func(x ssa.Value) bool { return isFormGetThrough(x, "code_verifier") }, 0)
-		codeOK := ci >= 0 && ci < len(a) && km.NamedTypeOf(a[ci].Type()) == typCode && isVerifiedCode(th, a[ci])
+		verifierOK := vi >= 0 && vi < len(a) && leafAll(toTh(a[vi]), func(x ssa.Value) bool { return isFormGetThrough(x, "code_verifier") }, 0)
+		codeOK := ci >= 0 && ci < len(a) && km.NamedTypeOf(a[ci].Type()) == typCode && isVerifiedCode(th, toTh(a[ci]))
 		r.Add("R-C12-2", km.FuncName(th), "flag := PKCE verifier result", posOf(c, x), "only for a client that may use PKCE; verifier from the request; code is the verified code", sprintf("canPKCE=%v verifier-from-form=%v code-is-verified=%v", canPKCE, verifierOK, codeOK), canPKCE && verifierOK && codeOK)
 	}
 	seen := map[*ssa.Phi]bool{}
@@ -221,13 +269,13 @@ func checkC12(c *km.Ctx) {
 					nonEmpty := false
 					for _, f := range facts {
 						if cl, ok := f.X.(*ssa.Call); ok {
-							if b, ok := cl.Common().Value.(*ssa.Builtin); ok && b.Name() == "len" && km.Unwrap(cl.Common().Args[0]) == km.Unwrap(x.Common().Args[1]) {
+							if b, ok := cl.Common().Value.(*ssa.Builtin); ok && b.Name() == "len" && km.Unwrap(cl.Common().Args[0]) == km.Unwrap(km.CallArgs(x.Common())[1]) {
 								if i, ok := km.ConstInt(f.Y); ok && ((f.Op == token.GTR && i == 0) || (f.Op == token.GEQ && i == 1) || (f.Op == token.NEQ && i == 0)) {
 									nonEmpty = true
 								}
 							}
 						}
-						if f.Op == token.NEQ && km.Unwrap(f.X) == km.Unwrap(x.Common().Args[1]) {
+						if f.Op == token.NEQ && km.Unwrap(f.X) == km.Unwrap(km.CallArgs(x.Common())[1]) {
 							if cs, ok := km.ConstString(f.Y); ok && cs == "" {
 								nonEmpty = true
 							}
@@ -235,7 +283,7 @@ func checkC12(c *km.Ctx) {
 					}
 					// receiver: the client configuration looked up for the request's client id
 					recvOK := false
-					if lc, idx := callRes(km.Unwrap(x.Common().Args[0])); lc != nil && idx == 0 && km.CalleeFull(lc.Common()) == RS+"idpOpenIDCGetClientConfig" {
+					if lc, idx := callRes(toTh(km.CallArgs(x.Common())[0])); lc != nil && idx == 0 && km.CalleeFull(lc.Common()) == RS+"idpOpenIDCGetClientConfig" {
 						recvOK = isClientID(km.CallArgs(lc.Common())[1])
 					}
 					r.Add("R-C12-2", km.FuncName(th), "flag := secret comparison", posOf(c, x), "only with a non-empty submitted secret, against the configuration of the client named in the request", sprintf("non-empty=%v client-config-of-request=%v", nonEmpty, recvOK), nonEmpty && recvOK)
@@ -570,17 +618,6 @@ func checkPKCEVerifier(c *km.Ctx, s *km.Sem, vf *ssa.Function) (verifier, code *
 		return good
 	}
 	isErr := vf.Signature.Results().Len() > 0 && types.Identical(vf.Signature.Results().At(0).Type(), types.Universe.Lookup("error").Type())
-	// methodsOf: what conjunction k says the challenge method is ("" when it says nothing)
-	methodOf := func(k km.Conj) (string, bool) {
-		for _, f := range k.List() {
-			if f.Op == token.EQL && mentionsField(f.X, "CodeChallengeMethod") {
-				if cs, ok := km.ConstString(f.Y); ok {
-					return cs, true
-				}
-			}
-		}
-		return "", false
-	}
 	n := 0
 	for _, rc := range s.RetCases(vf) {
 		v := km.Unwrap(rc.Results[0])
@@ -597,41 +634,36 @@ func checkPKCEVerifier(c *km.Ctx, s *km.Sem, vf *ssa.Function) (verifier, code *
 		// an accepting return: every disjunct that can accept must contain the equality of the right kind
 		good := len(rc.State) > 0
 		desc := ""
-		for _, d := range rc.State {
-			k := d
-			if !isErr {
-				var can bool
-				k, can = s.TrueFacts(d, v)
-				if !can {
-					continue
-				}
-			} else if !km.IsNilConst(v) {
-				// an error handed on: a refusal where this path knows it to be non-nil, otherwise not an argument
-				// for acceptance
-				nonNil := false
-				for _, f := range d.List() {
-					if f.Op == token.NEQ && km.IsNilConst(f.Y) && km.Unwrap(f.X) == v {
-						nonNil = true
+		// judgeK: the facts k of one accepting path contain the equality of the right kind. The facts may be those of
+		// a comparison helper (frame h), whose parameters stand for the arguments of its call in the verifier.
+		judgeK := func(k km.Conj, frame *ssa.Function, subst map[*ssa.Parameter]ssa.Value) bool {
+			sub := func(x ssa.Value) ssa.Value {
+				x = km.Unwrap(x)
+				if q, isP := x.(*ssa.Parameter); isP && subst != nil {
+					if a, has := subst[q]; has {
+						return km.Unwrap(a)
 					}
 				}
-				if nonNil {
-					continue
-				}
-				good = false
-				desc = "error of unknown origin returned: " + km.ValStr(v)
-				break
+				return x
 			}
-			method, hasMethod := methodOf(k)
+			method, hasMethod := "", false
+			for _, f := range k.List() {
+				if f.Op == token.EQL && f.X != nil && mentionsField(sub(f.X), "CodeChallengeMethod") {
+					if cs, ok := km.ConstString(f.Y); ok {
+						method, hasMethod = cs, true
+					}
+				}
+			}
 			found := false
 			for _, f := range k.List() {
-				if f.Op != token.EQL {
+				if f.Op != token.EQL || f.X == nil || f.Y == nil {
 					continue
 				}
 				var other ssa.Value
 				switch {
-				case challengeOK(f.Y):
+				case challengeOK(sub(f.Y)):
 					other = f.X
-				case challengeOK(f.X):
+				case challengeOK(sub(f.X)):
 					other = f.Y
 				default:
 					continue
@@ -639,17 +671,19 @@ func checkPKCEVerifier(c *km.Ctx, s *km.Sem, vf *ssa.Function) (verifier, code *
 				o := km.Unwrap(other)
 				var q *ssa.Parameter
 				s256 := false
-				if pq, ok := o.(*ssa.Parameter); ok {
+				if pq, ok := sub(o).(*ssa.Parameter); ok && pq.Parent() == vf {
 					q = pq
 				} else {
-					for _, cand := range vf.Params {
+					for _, cand := range frame.Params {
 						if isS256Of(o, cand) {
-							q, s256 = cand, true
+							if vq, ok := sub(cand).(*ssa.Parameter); ok && vq.Parent() == vf {
+								q, s256 = vq, true
+							}
 						}
 					}
 				}
 				viaTable := false
-				if q == nil {
+				if q == nil && frame == vf {
 					// the transform looked up by method in a table of functions: each entry is judged
 					if tq, why, ok := pkceTableTransform(c, k, o, vf); ok {
 						q, viaTable = tq, true
@@ -678,6 +712,60 @@ func checkPKCEVerifier(c *km.Ctx, s *km.Sem, vf *ssa.Function) (verifier, code *
 					desc = "base64url(sha256(verifier)) == challenge under method=S256"
 				default:
 					desc = sprintf("comparison (s256=%v) under method=%q (known=%v)", s256, method, hasMethod)
+				}
+			}
+			return found
+		}
+		for _, d := range rc.State {
+			k := d
+			if !isErr {
+				var can bool
+				k, can = s.TrueFacts(d, v)
+				if !can {
+					continue
+				}
+			} else if !km.IsNilConst(v) {
+				// an error handed on: a refusal where this path knows it to be non-nil, otherwise not an argument
+				// for acceptance
+				nonNil := false
+				for _, f := range d.List() {
+					if f.Op == token.NEQ && km.IsNilConst(f.Y) && km.Unwrap(f.X) == v {
+						nonNil = true
+					}
+				}
+				if nonNil {
+					continue
+				}
+				good = false
+				desc = "error of unknown origin returned: " + km.ValStr(v)
+				break
+			}
+			found := judgeK(k, vf, nil)
+			if !found && !isErr {
+				// the comparison itself may live in a helper new to the tree whose verdict is returned: every way the
+				// helper can answer true has to contain the equality, its parameters standing for the arguments
+				if hc, hi := callRes(v); hc != nil && hi == 0 {
+					if h := km.StaticCallee(hc.Common()); h != nil && h != vf && c.InModule(h) && len(h.Blocks) > 0 && h.Signature.Results().Len() == 1 && len(hc.Common().Args) == len(h.Params) {
+						subst := map[*ssa.Parameter]ssa.Value{}
+						for i, q := range h.Params {
+							subst[q] = hc.Common().Args[i]
+						}
+						all, any := true, false
+						for _, rc2 := range s.RetCases(h) {
+							v2 := km.Unwrap(rc2.Results[0])
+							for _, d2 := range rc2.State {
+								k2, can := s.TrueFacts(d2, v2)
+								if !can {
+									continue
+								}
+								any = true
+								if !judgeK(k2, h, subst) {
+									all = false
+								}
+							}
+						}
+						found = all && any
+					}
 				}
 			}
 			if !found {
